@@ -330,4 +330,116 @@ theorem labelR_pruned (m : MergeP) (L pl : List Name) (c : Name) (hsub : ∀ x, 
       exact ⟨List.contains_iff_mem.mpr (hsub c (List.contains_iff_mem.mp hh.1)), hh.2⟩
     rw [if_neg this]
 
+/-! ### the pruned join keeps the labels of the columns it keeps -/
+
+/-- the collision partner of every kept left column is kept on the right -/
+theorem merge_left_twin {m : MergeP} {L R proj : List Name} (hR : R.Nodup) (hk : KeysDoNotCollide m L R) {c : Name}
+    (hc : c ∈ (mergeLists m L R proj).1) (h : (R.contains c && !commonKey m c) = true) :
+    c ∈ (mergeLists m L R proj).2 := by
+  simp only [Bool.and_eq_true, Bool.not_eq_true'] at h
+  obtain ⟨hcR, hck⟩ := h
+  have hcRm : c ∈ R := List.contains_iff_mem.mp hcR
+  rw [mergeLists_eq m L R proj hR] at hc ⊢
+  rcases List.mem_append.mp hc with h1 | h1
+  · -- kept by the left loop
+    have hA := (List.mem_filter.mp h1).2
+    have hcL := (List.mem_filter.mp h1).1
+    simp only [mA, Bool.or_eq_true] at hA
+    rcases hA with (hkey | hp) | hs
+    · have := hk.1 c (List.contains_iff_mem.mp hkey) hcRm
+      rw [hck] at this; cases this
+    · have := merge_right_of_proj m L R proj hR hcRm hp
+      rw [mergeLists_eq m L R proj hR] at this
+      exact this
+    · by_cases hkp : (m.leftOn.contains c || proj.contains c) = true
+      · rcases Bool.or_eq_true _ _ ▸ hkp with hkey | hp
+        · have := hk.1 c (List.contains_iff_mem.mp hkey) hcRm
+          rw [hck] at this; cases this
+        · have := merge_right_of_proj m L R proj hR hcRm hp
+          rw [mergeLists_eq m L R proj hR] at this
+          exact this
+      · apply List.mem_append_left
+        rw [List.mem_filter]
+        refine ⟨hcL, ?_⟩
+        have hkp' : (m.leftOn.contains c || proj.contains c) = false := by simpa using hkp
+        simp only [mB, hkp', Bool.not_false, hs, hcR, Bool.and_self]
+  · -- appended by the right loop as the partner of a suffixed right column
+    have hG := (List.mem_filter.mp h1).2
+    simp only [mG, Bool.and_eq_true, Bool.not_eq_true'] at hG
+    obtain ⟨⟨⟨⟨hnpr, hnk⟩, hs⟩, _⟩, _⟩ := hG
+    apply List.mem_append_right
+    rw [List.mem_filter]
+    refine ⟨hcRm, ?_⟩
+    simp only [mH, hnpr, Bool.not_false, Bool.true_and, hs, Bool.or_true]
+
+/-- … and symmetrically -/
+theorem merge_right_twin {m : MergeP} {L R proj : List Name} (hR : R.Nodup) (hk : KeysDoNotCollide m L R) {c : Name}
+    (hc : c ∈ (mergeLists m L R proj).2) (h : (L.contains c && !commonKey m c) = true) :
+    c ∈ (mergeLists m L R proj).1 := by
+  simp only [Bool.and_eq_true, Bool.not_eq_true'] at h
+  obtain ⟨hcL, hck⟩ := h
+  have hcLm : c ∈ L := List.contains_iff_mem.mp hcL
+  rw [mergeLists_eq m L R proj hR] at hc ⊢
+  rcases List.mem_append.mp hc with h1 | h1
+  · exact List.mem_append_left _ (List.mem_filter.mpr ⟨hcLm, mB_imp_mA m R proj (List.mem_filter.mp h1).2⟩)
+  · have hH := (List.mem_filter.mp h1).2
+    have hcR := (List.mem_filter.mp h1).1
+    simp only [mH, Bool.and_eq_true, Bool.not_eq_true', Bool.or_eq_true] at hH
+    obtain ⟨hnpr, hcase⟩ := hH
+    rcases hcase with (hkey | hp) | hs
+    · have := hk.2 c (List.contains_iff_mem.mp hkey) hcLm
+      rw [hck] at this; cases this
+    · apply List.mem_append_left
+      rw [List.mem_filter]
+      exact ⟨hcLm, by simp only [mA, hp, Bool.or_true, Bool.true_or]⟩
+    · by_cases hkp : (m.rightOn.contains c || proj.contains c) = true
+      · rcases Bool.or_eq_true _ _ ▸ hkp with hkey | hp
+        · have := hk.2 c (List.contains_iff_mem.mp hkey) hcLm
+          rw [hck] at this; cases this
+        · apply List.mem_append_left
+          rw [List.mem_filter]
+          exact ⟨hcLm, by simp only [mA, hp, Bool.or_true, Bool.true_or]⟩
+      · have hkp' : (m.rightOn.contains c || proj.contains c) = false := by simpa using hkp
+        by_cases hpl : (L.filter (mA m proj)).contains c = true
+        · exact List.mem_append_left _ (List.contains_iff_mem.mp hpl)
+        · have hpl' : (L.filter (mA m proj)).contains c = false := by simpa using hpl
+          apply List.mem_append_right
+          rw [List.mem_filter]
+          refine ⟨hcR, ?_⟩
+          simp only [mG, hnpr, Bool.not_false, hkp', hs, hcL, hpl', Bool.and_self]
+
+/-- labels of the kept left columns are what they were -/
+theorem labelL_kept {m : MergeP} {L R proj : List Name} (hR : R.Nodup) (hk : KeysDoNotCollide m L R) {c : Name}
+    (hc : c ∈ (mergeLists m L R proj).1) : labelL m (mergeLists m L R proj).2 c = labelL m R c :=
+  labelL_pruned m _ _ c (merge_right_sub m L R proj hR) (merge_left_twin hR hk hc)
+
+theorem labelR_kept {m : MergeP} {L R proj : List Name} (hR : R.Nodup) (hk : KeysDoNotCollide m L R) {c : Name}
+    (hc : c ∈ (mergeLists m L R proj).2) : labelR m (mergeLists m L R proj).1 c = labelR m L c :=
+  labelR_pruned m _ _ c (merge_left_sub m L R proj hR) (merge_right_twin hR hk hc)
+
+/-- the result labels of the pruned join are duplicate-free when those of the join are -/
+theorem mergeLabels_pruned_nodup {m : MergeP} {L R proj : List Name} (hL : L.Nodup) (hR : R.Nodup)
+    (hk : KeysDoNotCollide m L R) (hn : (mergeLabels m L R).Nodup) :
+    (mergeLabels m (mergeLists m L R proj).1 (mergeLists m L R proj).2).Nodup := by
+  have hplsub := merge_left_sub m L R proj hR
+  have hprsub := merge_right_sub m L R proj hR
+  have hplnd := merge_left_nodup m L R proj hL hR
+  have hprnd := merge_right_nodup m L R proj hL hR
+  unfold mergeLabels at hn ⊢
+  rw [List.nodup_append] at hn
+  rw [List.map_congr_left (fun x hx => labelL_kept (proj := proj) hR hk hx),
+    List.map_congr_left (fun x hx => labelR_kept (proj := proj) hR hk (List.mem_filter.mp hx).1), List.nodup_append]
+  refine ⟨?_, ?_, ?_⟩
+  · exact nodup_map_of_inj _ _ hplnd (fun x y hx hy he =>
+      inj_of_nodup_map _ _ hn.1 x y (hplsub x hx) (hplsub y hy) he)
+  · exact nodup_map_of_inj _ _ (List.Nodup.sublist List.filter_sublist hprnd) (fun x y hx hy he =>
+      inj_of_nodup_map _ _ hn.2.1 x y
+        (List.mem_filter.mpr ⟨hprsub x (List.mem_filter.mp hx).1, (List.mem_filter.mp hx).2⟩)
+        (List.mem_filter.mpr ⟨hprsub y (List.mem_filter.mp hy).1, (List.mem_filter.mp hy).2⟩) he)
+  · intro x hx y hy hxy
+    obtain ⟨x0, hx0, rfl⟩ := List.mem_map.mp hx
+    obtain ⟨y0, hy0, rfl⟩ := List.mem_map.mp hy
+    exact hn.2.2 _ (List.mem_map.mpr ⟨x0, hplsub x0 hx0, rfl⟩) _
+      (List.mem_map.mpr ⟨y0, List.mem_filter.mpr ⟨hprsub y0 (List.mem_filter.mp hy0).1, (List.mem_filter.mp hy0).2⟩, rfl⟩) hxy
+
 end Dx.Cols
